@@ -16,14 +16,15 @@ type Modes struct {
 	ErrMode  string `json:"errMode"`  // skip | fatal
 	CountCap int    `json:"countCap"` // 0 = unbounded
 	Wrap     bool   `json:"wrap"`     // int32 progress columns (as found: true)
+	Cursor   string `json:"cursor"`   // gt | ge
 }
 
 // AsFound is the tree as it is (the DEFAULT: /repo is not changed for the observations of this
 // stage); Repaired is the behaviour after the proposed repairs CHAINOBS-1..3 (docs/fixes-proposed).
-// VERIF_CHAINOBS_MODES=repaired, or a list like "errmode=fatal,countcap=64,wrap=false".
+// VERIF_CHAINOBS_MODES=repaired, or a list like "errmode=fatal,countcap=64,wrap=false,cursor=ge".
 var (
-	AsFound  = Modes{ErrMode: "skip", CountCap: 0, Wrap: true}
-	Repaired = Modes{ErrMode: "fatal", CountCap: 64, Wrap: false}
+	AsFound  = Modes{ErrMode: "skip", CountCap: 0, Wrap: true, Cursor: "gt"}
+	Repaired = Modes{ErrMode: "fatal", CountCap: 64, Wrap: false, Cursor: "ge"}
 )
 
 func modesFromEnv() Modes {
@@ -47,6 +48,8 @@ func modesFromEnv() Modes {
 			fmt.Sscan(p[1], &m.CountCap)
 		case "wrap":
 			m.Wrap = p[1] == "true"
+		case "cursor":
+			m.Cursor = p[1]
 		}
 	}
 	return m
@@ -86,8 +89,9 @@ type Plan struct {
 	BaseZero    bool        `json:"baseZero"`
 	CheckProps  bool        `json:"checkProps"`
 	Live        bool        `json:"live"`
-	Replay      int         `json:"replay"` // behaviours replayed on the real code (0 = all printed)
-	Par         int         `json:"par"`    // worlds replayed at the same time (0 = default)
+	PropsOnly   bool        `json:"propsOnly"` // TLC checks PropInv; nothing is replayed
+	Replay      int         `json:"replay"`    // behaviours replayed on the real code (0 = all printed)
+	Par         int         `json:"par"`       // worlds replayed at the same time (0 = default)
 	M           Modes       `json:"modes"`
 }
 
@@ -145,8 +149,8 @@ func (p Plan) baseConsts() string {
 	if p.M.Wrap && !p.BaseZero {
 		wrapAt = 3 // real block 2^31 is the abstract block 3 when the chain starts at 2^31 - 3
 	}
-	return fmt.Sprintf(" FinOff = %d\n Page = %d\n DeployKs = %d\n DeployCo = %d\n Sets <- cSets\n BaseZero = %s\n InitNb <- cInitNb\n ErrMode = %q\n CountCap = %d\n WrapAt = %d\n",
-		finOff, pageSize, p.DeployKs, p.DeployCo, tlaBool(p.BaseZero), p.M.ErrMode, p.M.CountCap, wrapAt)
+	return fmt.Sprintf(" FinOff = %d\n Page = %d\n DeployKs = %d\n DeployCo = %d\n Sets <- cSets\n BaseZero = %s\n InitNb <- cInitNb\n ErrMode = %q\n CountCap = %d\n WrapAt = %d\n CursorRule = %q\n",
+		finOff, pageSize, p.DeployKs, p.DeployCo, tlaBool(p.BaseZero), p.M.ErrMode, p.M.CountCap, wrapAt, p.M.Cursor)
 }
 
 func modName(prefix, name string) string {
